@@ -4,7 +4,10 @@ package main
 // indent) x three escaping modes (off, encoder-side, decoder-side) x validity check on/off.
 
 import (
+	"encoding/xml"
 	"fmt"
+	"io"
+	"sort"
 	"strings"
 
 	mxj "github.com/clbanning/mxj/v2"
@@ -46,6 +49,10 @@ func c05encExec(c *cur) string {
 	valid := c.boolean()
 	m := c.mapVal()
 	sm := c.mapVal()
+	doc := ""
+	if c.pos < len(c.toks) {
+		doc = c.str()
+	}
 	if c.err != nil {
 		return "bad-op " + c.err.Error()
 	}
@@ -54,9 +61,60 @@ func c05encExec(c *cur) string {
 		mxj.XMLEscapeChars(true)
 	case 2:
 		mxj.XMLEscapeCharsDecoder(true)
+	case 3:
+		// decoder-side escaping requested first, then the toggle form of the encoder switch:
+		// the two are documented as mutually exclusive, decoder-side escaping stays in force
+		mxj.XMLEscapeCharsDecoder(true)
+		mxj.XMLEscapeChars()
+	case 4:
+		// encoder-side first, then decoder-side requested explicitly: decoder-side wins
+		mxj.XMLEscapeChars(true)
+		mxj.XMLEscapeCharsDecoder(true)
+	}
+	decoderMode := mode >= 2
+	if mode > 2 {
+		mode = 2
 	}
 	mxj.XmlCheckIsValid(valid)
 	notes := []string{}
+	// decoder-side escaping: decode followed by encode reproduces the original escaped values
+	if decoderMode && doc != "" {
+		for _, seq := range []bool{false, true} {
+			var m1, m2 map[string]interface{}
+			var x []byte
+			var e1, e2, e3 error
+			if seq {
+				var a, b mxj.MapSeq
+				a, e1 = mxj.NewMapXmlSeq([]byte(doc))
+				if e1 == nil {
+					x, e2 = a.Xml()
+					b, e3 = mxj.NewMapXmlSeq(x)
+				}
+				m1, m2 = a, b
+			} else {
+				var a, b mxj.Map
+				a, e1 = mxj.NewMapXml([]byte(doc))
+				if e1 == nil {
+					x, e2 = a.Xml()
+					b, e3 = mxj.NewMapXml(x)
+				}
+				m1, m2 = a, b
+			}
+			if e1 != nil {
+				continue
+			}
+			// (the sequence numbers of a MapSeq also record where mixed text stood, which the
+			// encoder normalises: for the sequence codec only the values are compared)
+			if e2 != nil || e3 != nil || (!seq && enc(m1) != enc(m2)) {
+				notes = append(notes, fmt.Sprintf("DECODERMODE decode-encode-decode under decoder-side escaping (seq=%v) does not reproduce the values (%v %v): first %s second %s xml %s", seq, e2, e3, clip(enc(m1), 300), clip(enc(m2), 300), clip(string(x), 200)))
+				break
+			}
+			if !valuesSame(doc, string(x)) {
+				notes = append(notes, fmt.Sprintf("DECODERMODE the re-encoded document (seq=%v) carries different escaped values than the original: %s", seq, clip(string(x), 200)))
+				break
+			}
+		}
+	}
 	type encRes struct {
 		name string
 		b    []byte
@@ -128,6 +186,48 @@ func c05encExec(c *cur) string {
 	return "ok | " + strings.Join(notes, "; ")
 }
 
+// valuesSame: the multiset of character-data runs and attribute values (as the tokenizer
+// delivers them, blank runs dropped) of two documents.
+func valuesSame(a, b string) bool {
+	collect := func(s string) (string, bool) {
+		d := xml.NewDecoder(strings.NewReader(s))
+		var vals []string
+		run := ""
+		flush := func() {
+			if t := strings.TrimSpace(run); t != "" {
+				vals = append(vals, "T"+t)
+			}
+			run = ""
+		}
+		for {
+			t, err := d.RawToken()
+			if err == io.EOF {
+				break
+			}
+			if err != nil {
+				return "", false
+			}
+			switch x := t.(type) {
+			case xml.CharData:
+				run += string(x)
+			case xml.StartElement:
+				flush()
+				for _, at := range x.Attr {
+					vals = append(vals, "A"+at.Value)
+				}
+			default:
+				flush()
+			}
+		}
+		flush()
+		sort.Strings(vals)
+		return strings.Join(vals, "\x00"), true
+	}
+	va, oka := collect(a)
+	vb, okb := collect(b)
+	return oka && okb && va == vb
+}
+
 func c05encGen(r *Rng) string {
 	mode := r.Intn(3)
 	m := map[string]interface{}{"r": r.hostileLeaves(r.c03Map(1))}
@@ -162,11 +262,22 @@ func c05encGen(r *Rng) string {
 	if err == nil {
 		sm = seqHostile(r, map[string]interface{}(ms)).(map[string]interface{})
 	}
+	docArg := ""
+	if r.P(35) {
+		// the decoder-side clause: a document with escaped values, options requested in the
+		// histories 2, 3 (toggle form) and 4 (encoder switch first)
+		mode = 2 + r.Intn(3)
+		g2 := c01Gen0
+		g2.Comments, g2.MultiTextP, g2.MaxDepth, g2.Namespaces = false, 0, 2, false
+		var sb2 strings.Builder
+		r.render(r.xmlDoc(&g2), &sb2)
+		docArg = " " + encStr(sb2.String())
+	}
 	if mode != 1 && r.P(15) {
 		// a MapSeq whose single root key holds a one-member list of a bare string
 		sm = map[string]interface{}{r.Pick(xmlValueNames): []interface{}{strings.TrimSpace(r.hostile(4))}}
 	}
-	return fmt.Sprintf("implonly enc4 %d %d %s %s", mode, b2i(r.P(60)), enc(m), enc(sm))
+	return fmt.Sprintf("implonly enc4 %d %d %s %s", mode, b2i(r.P(60)), enc(m), enc(sm)) + docArg
 }
 
 // seqHostile replaces "#text" strings of a MapSeq.
